@@ -68,6 +68,15 @@ def fabricate(tok, version):
         return ApplicationData().create(bytearray(b"early-data"))
     if tok == "KU":
         return KeyUpdate().create(0)
+    if tok == "CR":
+        from tlslite.messages import CertificateRequest
+        from tlslite.constants import ClientCertificateType, SignatureScheme, HashAlgorithm, SignatureAlgorithm
+        from tlslite.extensions import SignatureAlgorithmsExtension
+        if version >= (3, 4):
+            ext = SignatureAlgorithmsExtension().create([SignatureScheme.rsa_pss_rsae_sha256, SignatureScheme.ecdsa_secp256r1_sha256])
+            return CertificateRequest(version).create(context=bytearray(b""), extensions=[ext])
+        return CertificateRequest(version).create([ClientCertificateType.rsa_sign, ClientCertificateType.ecdsa_sign], [],
+                                                  [(HashAlgorithm.sha256, SignatureAlgorithm.rsa)])
     if tok == "WARN":
         return Alert().create(AlertDescription.user_canceled, AlertLevel.warning)
     raise ValueError(tok)
@@ -97,6 +106,7 @@ class Puppet(object):
         self.tokens = []          # tokens of produced (honest) messages
         self.flights = []         # flight id per produced message
         self.sent = []            # tokens really sent, in order
+        self.sent_rec = []        # per sent item: number of records this endpoint had written before it
         self.active = True
         self.orig_send = conn._sendMsg
         self.orig_queue = conn._queue_message
@@ -105,6 +115,14 @@ class Puppet(object):
         conn._sendMsg = self._sendMsg
         conn._queue_message = self._queue_message
         conn._queue_flush = self._queue_flush
+        self._nrec_count = 0
+        rl = conn._recordLayer
+        orig_send_record = rl.sendRecord
+
+        def sendRecord(msg, _orig=orig_send_record):
+            self._nrec_count += 1
+            return _orig(msg)
+        rl.sendRecord = sendRecord
 
     # -- helpers
     def _tracked(self, msg, update_hashes):
@@ -135,8 +153,13 @@ class Puppet(object):
         self.plan = self.plan[upto + 1:]
         return out
 
+    def _nrec(self):
+        """records handed to the record layer so far by this endpoint"""
+        return self._nrec_count
+
     def _emit(self, it, queued):
         """generator sending one plan item; queued: we are inside a _queue_message flight"""
+        self.sent_rec.append(self._nrec())
         if it[0] == "glue":
             # the honest message k followed IN THE SAME RECORD by the first bytes of a further handshake
             # message (a KeyUpdate header); the rest of that message goes out after the handshake
@@ -150,6 +173,7 @@ class Puppet(object):
                 if self.conn._buffer_content_type is not None:
                     for r in self.orig_flush():
                         yield r
+                    self.sent_rec[-1] = self._nrec()
                 self.conn._handshake_hash.update(honest)
                 for r in self.orig_send(Message(ContentType.handshake, bytearray(honest) + GLUE_HEAD), True, False):
                     yield r
@@ -160,6 +184,7 @@ class Puppet(object):
             if self.conn._buffer_content_type is not None:
                 for r in self.orig_flush():
                     yield r
+                self.sent_rec[-1] = self._nrec()
             for r in self.orig_send(Message(ContentType.handshake, bytearray(it[1])), True, False):
                 yield r
             return
@@ -175,6 +200,7 @@ class Puppet(object):
             # flush what is queued first, then send this one on its own
             for r in self.orig_flush():
                 yield r
+            self.sent_rec[-1] = self._nrec()
         if msg.contentType == ContentType.handshake and via == "queue" and queued:
             self.orig_queue(msg)
             return
